@@ -70,6 +70,14 @@ use crate::utils::{
 pub use crate::p2p::header_ex::HeaderExError;
 pub use crate::p2p::shrex::ShrExError;
 
+// Verification hooks: crate-wide access to the cfg-gated shims of the private sub-modules.
+#[cfg(eigerco_lumina_verif)]
+#[allow(unused_imports)]
+pub(crate) use crate::p2p::header_ex::verif_shim as verif_header_ex;
+#[cfg(eigerco_lumina_verif)]
+#[allow(unused_imports)]
+pub(crate) use crate::p2p::shrex::verif_shim as verif_shrex;
+
 // Maximum size of a [`Multihash`].
 pub(crate) const MAX_MH_SIZE: usize = 64;
 
